@@ -1,4 +1,5 @@
 """C16 — hull masking and grid projection keep values only where data constrain them."""
+import math
 import warnings
 from fractions import Fraction as F
 
@@ -101,6 +102,23 @@ def mk_pg(ge, gn, vals, proj, method, antialias, kw, kind):
                   f"{C.enc(None if 'spacing' not in kw else [float(v) for v in np.atleast_1d(kw['spacing'])])}"}
 
 
+def mk_mask_large(es, ns, region, shape, kind="mask-large-query"):
+    """Hull mask of a LARGE regular grid of query points (hundreds of thousands): checked against vectorised half-plane tests on the exact hull
+    polygon inside the implementation run (only the disagreements travel back); outside the Lean correspondence."""
+    return {"fn": "mask_large", "kind": kind, "args": [es, ns, list(region), list(shape)], "op": "power_comb 0", "key": repr((es, ns, region, shape))}
+
+
+def _large_reference(es, ns, E, N):
+    poly, size = _hull(list(zip(es, ns)))
+    P = [(float(x), float(y)) for x, y in poly]
+    mn = np.full(E.shape, np.inf)
+    for i in range(len(P)):
+        (ax, ay), (bx, by) = P[i], P[(i + 1) % len(P)]
+        ln = float(np.hypot(bx - ax, by - ay))
+        mn = np.minimum(mn, ((bx - ax) * (N - ay) - (by - ay) * (E - ax)) / ln)
+    return mn >= 0, np.abs(mn) <= 1e-9 * float(size)
+
+
 def cloud(rng, n, scale, offset, lattice):
     seen, es, ns = set(), [], []
     while len(es) < n:
@@ -136,6 +154,7 @@ def corpus():
           mk_pg([0.0, 1.0, 2.0, 3.0, 4.0], [10.0, 20.0, 30.0, 40.0, 50.0],
                 [[None, None, None, None, None], [None, None, 7.0, 8.0, 9.0], [None, 10.0, 11.0, 12.5, 13.0], [None, 2.0, 3.0, 4.0, 5.5],
                  [None, 6.0, 7.0, 1.0, 2.5]], ["affine", [2.0, 1.0, 0.5, -3.0]], "linear", False, {}, "corpus-pg-nan-L-margin"),
+          mk_mask_large([0.0, 40.0, 55.0, 30.0, -10.0, 20.0], [0.0, -5.0, 30.0, 60.0, 35.0, 20.0], (-12.0, 57.0, -7.0, 62.0), (530, 620)),
           # known finding F1: Clough-Tocher overshoots the input range even with antialiasing
           mk_pg([-3.5, -2.5, -1.5, -0.5, 0.5, 1.5], [1.5, 2.5, 3.5, 4.5],
                 [[8.25, -0.5, 8.0, -2.0, -2.75, -0.25], [0.5, 6.75, -0.75, -1.25, 2.0, 5.5], [-6.5, -7.75, 3.25, -3.75, -4.5, -3.5],
@@ -147,6 +166,9 @@ def generate(rng, tier):
     n = 220 if tier == "quick" else 3500
     maxpts = 12 if tier == "quick" else 30
     cs = []
+    for _ in range(2 if tier == "quick" else 12):
+        es, ns = cloud(rng, rng.randint(4, 9), 1.0, 0.0, False)
+        cs.append(mk_mask_large(es, ns, (-9.0, 9.0, -9.0, 9.0), (rng.randint(480, 640), rng.randint(510, 700))))
     for _ in range(n):
         u = rng.random()
         if u < 0.75:
@@ -226,6 +248,18 @@ def impl(case):
     def run():
         with warnings.catch_warnings():
             warnings.simplefilter("ignore")
+            if case["fn"] == "mask_large":
+                es, ns, region, shape = a
+                E, N = vd.grid_coordinates(tuple(region), shape=tuple(shape))
+                if (shape[0] + shape[1]) % 2:
+                    E, N = np.asfortranarray(E), np.asfortranarray(N)
+                arr = np.asarray(vd.convexhull_mask((np.array(es), np.array(ns)), coordinates=(E, N)))
+                if arr.shape != E.shape:
+                    raise RuntimeError("wrong output shape")
+                ref, near = _large_reference(es, ns, E, N)
+                bad = np.argwhere((arr != ref) & ~near)
+                return ["mask_large", {"n": int(arr.size), "inside": int(ref.sum()), "nbad": int(len(bad)),
+                                       "first": [[int(i), int(j), float(E[i, j]), float(N[i, j]), bool(arr[i, j])] for i, j in bad[:3]]}]
             if case["fn"] == "mask":
                 es, ns, qe, qn, shape2d, proj, grid = a[:7]
                 f = None if proj is None else PROJS[proj[0]](proj[1])
@@ -256,7 +290,7 @@ def impl(case):
                     "north": [float(v) for v in out.coords[out.dims[0]].values],
                     "values": [[None if v != v else float(v) for v in row] for row in out.values.tolist()]}
     r = C.call(run)
-    if C.is_err(r) or case["fn"] == "mask":
+    if C.is_err(r) or case["fn"] in ("mask", "mask_large"):
         return r
     return ["pg", r]
 
@@ -272,6 +306,8 @@ def compare(case, io, mo):
         return "amb"
     if C.is_err(io):
         return "diff:implementation failed: " + io[1]
+    if case["fn"] == "mask_large":
+        return "ok"
     if case["fn"] == "mask":
         mv = C.tofrac(mo)
         pe, pn, pqe, pqn = case["args"][7:11]
@@ -303,6 +339,13 @@ def oracle(case, io):
         return None
     if C.is_err(io):
         return "failed: " + io[1]
+    if case["fn"] == "mask_large":
+        r = io[1]
+        if r["nbad"]:
+            i, j, x, y, got = r["first"][0]
+            return (f"{r['nbad']} of {r['n']} query points wrong, e.g. node [{i}, {j}] = ({x}, {y}): mask is {got} but the point is "
+                    f"{'outside' if got else 'inside'} the convex hull of the data")
+        return None
     if case["fn"] == "mask":
         pe, pn, pqe, pqn = a[7:11]
         S = list(zip(pe, pn))
@@ -339,7 +382,13 @@ def oracle(case, io):
                 continue
             if not inside and v is not None:
                 return f"value {v} outside the convex hull of the projected data points at ({x}, {y})"
-            if inside and v is None and margin > 1e-6 and (not antialias or all(c is not None for row in vals for c in row)):
+            # with antialiasing the interpolator sees block MEANS (blocks of one output cell): their hull is the data hull shrunk by at most one
+            # block diagonal, so a linear/cubic value is only owed farther than that from the hull's boundary
+            deep = True
+            if antialias and method != "nearest":
+                diag = math.hypot(abs(r["east"][1] - r["east"][0]) if len(r["east"]) > 1 else 0.0, abs(r["north"][1] - r["north"][0]) if len(r["north"]) > 1 else 0.0)
+                deep = math.sqrt(margin) * float(_hull(S)[1]) > diag * (1 + 1e-9)
+            if inside and v is None and margin > 1e-6 and deep and (not antialias or all(c is not None for row in vals for c in row)):
                 return f"NaN inside the convex hull of the projected data points at ({x}, {y})"
             if v is not None and (antialias or method in ("linear", "nearest")) and not (vmin - 1e-9 <= v <= vmax + 1e-9):
                 return f"value {v} outside the range [{vmin}, {vmax}] of the input"
